@@ -244,6 +244,77 @@ func (s *seqRT) ruleStackNested() {
 		"with a loop nested in a loop the outer driver re-enters itself on top of the inner loop's frames: stack depth grows with every non-yielding outer iteration; "+growth)
 }
 
+// ruleStackCombineBody: a loop whose body is one Combine value (built once — the
+// optimiser strips the per-iteration Delay around it) that completes synchronously.
+func (s *seqRT) ruleStackCombineBody() {
+	c := s.c
+	roles := s.ruleRole()
+	fn := s.w.Func(pathSeq, "For")
+	pos := s.w.FnPos(fn)
+	const iters = 4
+	in := s.interp()
+	in.MaxRecur, in.MaxVisits, in.MaxDepth = 3*iters+4, 3*iters+4, 120
+	count := func(st *State, name string) int {
+		n := 0
+		for _, e := range st.Events {
+			if e.Kind == "call" && isSymNamed(e.Callee, name) {
+				n++
+			}
+		}
+		return n
+	}
+	in.OnCall = func(cc *CallCtx) []Answer {
+		sym, ok := cc.Callee.(Sym)
+		if !ok {
+			return nil
+		}
+		switch sym.Name {
+		case "cond":
+			return []Answer{{Ret: []AV{mkBool(count(cc.St, "cond") < iters)}, Label: "cond"}}
+		case "s1", "s2":
+			if len(cc.Args) != 2 {
+				return nil
+			}
+			return []Answer{{Label: "sync:Normal", Invoke: []Invocation{{Fn: cc.Args[1], Args: []AV{roles.Normal, Sym{Name: "v"}}}}}}
+		}
+		return nil
+	}
+	comb, st1, ok := s.construct(in, "SEQ.STACK.HEIGHT", "Combine", []AV{Sym{Name: "s1", NN: true}, Sym{Name: "s2", NN: true}})
+	if !ok {
+		return
+	}
+	outs := in.Run(st1, fn, []AV{Sym{Name: "cond", NN: true}, Nil{}, comb}, nil)
+	if len(outs) != 1 || outs[0].Panicked || len(outs[0].Ret) != 1 {
+		c.und("SEQ.STACK.HEIGHT", "loop over one Combine value", pos, "cannot construct For(cond, nil, Combine(s1, s2))")
+		return
+	}
+	res := in.Apply(outs[0].St, outs[0].Ret[0], []AV{symC(), symK()})
+	s.account(in)
+	checked := 0
+	growth := ""
+	for _, o := range res {
+		var hs []int
+		for _, e := range o.St.Events {
+			if e.Kind == "call" && isSymNamed(e.Callee, "s1") {
+				hs = append(hs, strings.Count(e.Stack, " > ")+1)
+			}
+		}
+		for i := 1; i < len(hs); i++ {
+			checked++
+			if hs[i] > hs[i-1] {
+				growth = fmt.Sprintf("abstract stack heights at the first half over successive iterations: %v", hs)
+			}
+		}
+	}
+	if checked < 2 {
+		c.und("SEQ.STACK.HEIGHT", "loop over one Combine value", pos, fmt.Sprintf("only %d iterations explored", checked))
+		return
+	}
+	c.check(growth == "", "SEQ.STACK.HEIGHT", "loop over one Combine value", pos,
+		fmt.Sprintf("%d successive non-yielding iterations through the same Combine value: the abstract stack never gets deeper", checked),
+		"entering the same Combine value once per iteration makes the loop driver recurse (a continuation kept from an earlier entry no longer belongs to the running iteration): "+growth)
+}
+
 // ruleNoStaticRecursion: no cycle among static calls in seq.
 func (s *seqRT) ruleNoStaticRecursion() {
 	c := s.c
